@@ -142,14 +142,19 @@ func marshalQuotingMergeKey(build func() yaml.MapSlice) []byte {
 }
 
 func yamlDecodesEqual(a, b []byte) bool {
-	var va, vb any
-	if err := yaml.Unmarshal(a, &va); err != nil {
-		return false
-	}
+	var vb any
 	if err := yaml.Unmarshal(b, &vb); err != nil {
 		return false
 	}
-	return reflect.DeepEqual(va, vb)
+	return yamlDecodesTo(a, vb)
+}
+
+func yamlDecodesTo(a []byte, want any) bool {
+	var va any
+	if err := yaml.Unmarshal(a, &va); err != nil {
+		return false
+	}
+	return reflect.DeepEqual(va, want)
 }
 
 // RenderYAMLStyled is RenderYAML with the string values named in
@@ -160,6 +165,10 @@ func RenderYAMLStyled(m Model) ([]byte, YAMLStyleStats) {
 	if len(m.Layout.YAMLStyles) == 0 {
 		return base, st
 	}
+	var want any
+	if err := yaml.Unmarshal(base, &want); err != nil {
+		panic("scengen: yaml.v2 cannot read what it marshalled: " + err.Error())
+	}
 	var active []YAMLSite
 	for _, s := range YAMLStringSites(m) {
 		if _, ok := m.Layout.YAMLStyles[s.Path]; ok {
@@ -168,7 +177,7 @@ func RenderYAMLStyled(m Model) ([]byte, YAMLStyleStats) {
 	}
 	for len(active) > 0 {
 		text, applied, bad := renderStyledSites(m, base, active)
-		if len(bad) == 0 && yamlDecodesEqual(text, base) {
+		if len(bad) == 0 && yamlDecodesTo(text, want) {
 			st.Applied = applied
 			return text, st
 		}
@@ -176,7 +185,7 @@ func RenderYAMLStyled(m Model) ([]byte, YAMLStyleStats) {
 		var good []YAMLSite
 		for _, s := range active {
 			t, _, b := renderStyledSites(m, base, []YAMLSite{s})
-			if len(b) == 0 && yamlDecodesEqual(t, base) {
+			if len(b) == 0 && yamlDecodesTo(t, want) {
 				good = append(good, s)
 			} else {
 				st.Fallback = append(st.Fallback, s.Path)
